@@ -4,6 +4,7 @@ import (
 	"encoding/json"
 	"fmt"
 	"iter"
+	"math"
 	"math/rand/v2"
 	"sort"
 	"strings"
@@ -356,6 +357,11 @@ func (s *msim[K]) step(i int, fromMap func(*msim[K], *mver[K], int)) {
 			return
 		}
 		var out part.Map[K, uint64]
+		if s.rng.IntN(2) == 0 {
+			// a destination that already holds something (a reused variable): the decoded value is still the encoded one
+			out = s.pool[s.rng.IntN(len(s.pool))].m
+			s.logf("  (decoding into a destination holding %d entries)", out.Len())
+		}
 		if err := json.Unmarshal(b, &out); err != nil {
 			s.violate("map/json-unmarshal", "json.Unmarshal(%s): %v", b, err)
 			return
@@ -373,6 +379,10 @@ func (s *msim[K]) step(i int, fromMap func(*msim[K], *mver[K], int)) {
 			return
 		}
 		var out part.Map[K, uint64]
+		if s.rng.IntN(2) == 0 {
+			out = s.pool[s.rng.IntN(len(s.pool))].m
+			s.logf("  (decoding into a destination holding %d entries)", out.Len())
+		}
 		if err := yaml.Unmarshal(b, &out); err != nil {
 			s.violate("map/yaml-unmarshal", "yaml.Unmarshal(%q): %v", b, err)
 			return
@@ -633,6 +643,10 @@ func (s *ssim) step(i int) {
 			return
 		}
 		var out part.Set[string]
+		if s.rng.IntN(2) == 0 {
+			out = s.pool[s.rng.IntN(len(s.pool))].s
+			s.logf("  (decoding into a destination holding %d elements)", out.Len())
+		}
 		if err := json.Unmarshal(b, &out); err != nil {
 			s.violate("set/json-unmarshal", "json.Unmarshal(%s): %v", b, err)
 			return
@@ -650,6 +664,10 @@ func (s *ssim) step(i int) {
 			return
 		}
 		var out part.Set[string]
+		if s.rng.IntN(2) == 0 {
+			out = s.pool[s.rng.IntN(len(s.pool))].s
+			s.logf("  (decoding into a destination holding %d elements)", out.Len())
+		}
 		if err := yaml.Unmarshal(b, &out); err != nil {
 			s.violate("set/yaml-unmarshal", "yaml.Unmarshal(%q): %v", b, err)
 			return
@@ -959,6 +977,225 @@ func TestVerif_WideFanout(t *testing.T) {
 		r.Case(vkit.NewHash().Str(fmt.Sprint(keys)).Sum(), true)
 		if r.WantSample() {
 			r.Sample(map[string]any{"case": c, "stem": stem, "keys": len(keys)})
+		}
+	})
+	r.Finish()
+}
+
+// ---- every registered key type ----
+
+const ruleKeyTypes = "part.Map[K,uint64] and part.Set[K] for every key type registered by the package (byte, rune, int16/32/64, int, uint16/32/64, float32/64, complex128, bool, string), over values that are " +
+	"hostile for a variable-width or narrowing encoding (negative numbers, surrogate and out-of-range code points, 0xFFFD, powers of two, extremes): random Set/Delete/Get/Has against a Go map model, " +
+	"Len, iteration yields every key once and in the order of the type's fixed-width big-endian form, JSON round trip of map and set; non-trivial = at least 8 distinct keys were live at once; distinct = hash of (type, operations)"
+
+func keyTypeCase[K comparable](r *vkit.Run, idx int, name string, vals []K, less func(a, b K) bool, jsonOK bool) {
+	rng := r.Rand(idx, 77)
+	h := vkit.NewHash().Str(name)
+	m := part.Map[K, uint64]{}
+	st := part.NewSet[K]()
+	model := map[K]uint64{}
+	var log []string
+	bad := func(key, f string, a ...any) {
+		r.Violation("keytype/"+key, idx, map[string]any{"type": name, "message": fmt.Sprintf(f, a...), "ops": log})
+	}
+	maxLive := 0
+	steps := 30 + rng.IntN(60)
+	for i := 0; i < steps; i++ {
+		k := vals[rng.IntN(len(vals))]
+		if rng.IntN(3) > 0 {
+			v := uint64(idx)*1000 + uint64(i)
+			m = m.Set(k, v)
+			st = st.Set(k)
+			model[k] = v
+			log = append(log, fmt.Sprintf("Set(%v,%d)", k, v))
+		} else {
+			m = m.Delete(k)
+			st = st.Delete(k)
+			delete(model, k)
+			log = append(log, fmt.Sprintf("Delete(%v)", k))
+		}
+		h.Str(log[len(log)-1])
+		maxLive = max(maxLive, len(model))
+		if m.Len() != len(model) || st.Len() != len(model) {
+			bad("len", "after %s: Map.Len()=%d Set.Len()=%d, model has %d keys", log[len(log)-1], m.Len(), st.Len(), len(model))
+			return
+		}
+		for j := 0; j < 4; j++ {
+			q := vals[rng.IntN(len(vals))]
+			gv, gok := m.Get(q)
+			mv, mok := model[q]
+			if gok != mok || gok && gv != mv || st.Has(q) != mok {
+				bad("get", "Get(%v)=(%d,%v) Has=%v, model (%d,%v)", q, gv, gok, st.Has(q), mv, mok)
+				return
+			}
+		}
+		var keys []K
+		seen := map[K]bool{}
+		for k, v := range m.All() {
+			if seen[k] || model[k] != v {
+				bad("all", "All yields %v=%d (twice=%v), model %d", k, v, seen[k], model[k])
+				return
+			}
+			if _, ok := model[k]; !ok {
+				bad("all", "All yields %v which is not in the model", k)
+				return
+			}
+			seen[k] = true
+			keys = append(keys, k)
+		}
+		if len(keys) != len(model) {
+			bad("all", "All yields %d keys, model has %d", len(keys), len(model))
+			return
+		}
+		for j := 1; j < len(keys); j++ {
+			if !less(keys[j-1], keys[j]) {
+				bad("order", "All yields %v before %v", keys[j-1], keys[j])
+				return
+			}
+		}
+		n := 0
+		for k := range st.All() {
+			if _, ok := model[k]; !ok {
+				bad("set-all", "Set.All yields %v which is not in the model", k)
+				return
+			}
+			n++
+		}
+		if n != len(model) {
+			bad("set-all", "Set.All yields %d elements, model has %d", n, len(model))
+			return
+		}
+		r.Count("keytype_steps", 1)
+	}
+	if jsonOK {
+		b, err := json.Marshal(m)
+		var out part.Map[K, uint64]
+		if err == nil {
+			err = json.Unmarshal(b, &out)
+		}
+		if err != nil {
+			bad("json", "JSON round trip of the map: %v", err)
+			return
+		}
+		if out.Len() != len(model) || !out.SlowEqual(m) {
+			bad("json", "the map decoded from %s has %d entries and is not equal to the encoded one (%d entries)", b, out.Len(), len(model))
+			return
+		}
+		for k, v := range model {
+			if gv, ok := out.Get(k); !ok || gv != v {
+				bad("json", "decoded map: Get(%v)=(%d,%v), want %d", k, gv, ok, v)
+				return
+			}
+		}
+		sb, err := json.Marshal(st)
+		var sout part.Set[K]
+		if err == nil {
+			err = json.Unmarshal(sb, &sout)
+		}
+		if err != nil || sout.Len() != len(model) || !sout.Equal(st) {
+			bad("json", "the set decoded from %s (err %v) has %d elements, the encoded one %d", sb, err, sout.Len(), len(model))
+			return
+		}
+	}
+	r.Case(h.Sum(), maxLive >= 8)
+}
+
+func TestVerif_KeyTypes(t *testing.T) {
+	r := vkit.Start(t, "C17", "key-types", "exploration", ruleKeyTypes)
+	r.Require("keytype_steps")
+	i32 := []int32{math.MinInt32, -65536, -257, -2, -1, 0, 1, 65, 0x7f, 0x80, 0x7ff, 0x800, 0xd7ff, 0xd800, 0xdbff, 0xdfff, 0xe000, 0xfffd, 0xffff, 0x10000, 0x10ffff, 0x110000, math.MaxInt32}
+	var runes []rune
+	var i16 []int16
+	var i64 []int64
+	var ints []int
+	var u16 []uint16
+	var u32 []uint32
+	var u64 []uint64
+	var f32 []float32
+	var f64 []float64
+	var c128 []complex128
+	var strs []string
+	seen16 := map[int16]bool{}
+	for _, v := range i32 {
+		runes = append(runes, rune(v))
+		if !seen16[int16(v)] {
+			seen16[int16(v)] = true
+			i16 = append(i16, int16(v))
+			u16 = append(u16, uint16(v))
+		}
+		i64 = append(i64, int64(v), int64(v)<<32+int64(v&0xff))
+		ints = append(ints, int(v), int(v)<<32+5)
+		u32 = append(u32, uint32(v))
+		u64 = append(u64, uint64(uint32(v)), uint64(v)<<31|1)
+		f32 = append(f32, float32(v)+0.5)
+		f64 = append(f64, float64(v)+0.25)
+		c128 = append(c128, complex(float64(v), 1), complex(1, float64(v)+0.5))
+		strs = append(strs, string(rune(v&0x1fffff)), fmt.Sprint(v))
+	}
+	dedup := func(in []string) []string {
+		m := map[string]bool{}
+		var out []string
+		for _, s := range in {
+			if !m[s] {
+				m[s] = true
+				out = append(out, s)
+			}
+		}
+		return out
+	}
+	strs = dedup(strs)
+	dedupU := func(in []uint64) []uint64 {
+		m := map[uint64]bool{}
+		var out []uint64
+		for _, s := range in {
+			if !m[s] {
+				m[s] = true
+				out = append(out, s)
+			}
+		}
+		return out
+	}
+	u64 = dedupU(u64)
+	n := vkit.N(60, 3000)
+	r.ParallelCases(n, vkit.Workers(), func(i int) {
+		switch i % 15 {
+		case 0:
+			keyTypeCase(r, i, "int32", i32, func(a, b int32) bool { return uint32(a) < uint32(b) }, true)
+		case 1:
+			keyTypeCase(r, i, "rune", runes, func(a, b rune) bool { return uint32(a) < uint32(b) }, true)
+		case 2:
+			keyTypeCase(r, i, "int16", i16, func(a, b int16) bool { return uint16(a) < uint16(b) }, true)
+		case 3:
+			keyTypeCase(r, i, "int64", i64, func(a, b int64) bool { return uint64(a) < uint64(b) }, true)
+		case 4:
+			keyTypeCase(r, i, "int", ints, func(a, b int) bool { return uint64(a) < uint64(b) }, true)
+		case 5:
+			keyTypeCase(r, i, "uint16", u16, func(a, b uint16) bool { return a < b }, true)
+		case 6:
+			keyTypeCase(r, i, "uint32", u32, func(a, b uint32) bool { return a < b }, true)
+		case 7:
+			keyTypeCase(r, i, "uint64", u64, func(a, b uint64) bool { return a < b }, true)
+		case 8:
+			keyTypeCase(r, i, "float32", f32, func(a, b float32) bool { return math.Float32bits(a) < math.Float32bits(b) }, true)
+		case 9:
+			keyTypeCase(r, i, "float64", f64, func(a, b float64) bool { return math.Float64bits(a) < math.Float64bits(b) }, true)
+		case 10:
+			keyTypeCase(r, i, "complex128", c128, func(a, b complex128) bool {
+				if real(a) != real(b) {
+					return math.Float64bits(real(a)) < math.Float64bits(real(b))
+				}
+				return math.Float64bits(imag(a)) < math.Float64bits(imag(b))
+			}, false)
+		case 11:
+			keyTypeCase(r, i, "bool", []bool{false, true}, func(a, b bool) bool { return !a && b }, true)
+		case 12:
+			bs := make([]byte, 0, 32)
+			for k := 0; k < 32; k++ {
+				bs = append(bs, byte(k*37))
+			}
+			keyTypeCase(r, i, "byte", bs, func(a, b byte) bool { return a < b }, true)
+		default:
+			keyTypeCase(r, i, "string", strs, func(a, b string) bool { return a < b }, true)
 		}
 	})
 	r.Finish()
